@@ -87,20 +87,21 @@ class Run:
                     res[i] = r
             for (src, origin, tags), r in zip(part, res):
                 kind = origin.split(":")[0]
-                if "harness_error" in r:
-                    self.inconclusive["harness-error"] = self.inconclusive.get("harness-error", 0) + 1
-                    acc.append(False)
-                    continue
-                crashed = "panic" in r or "died" in r or r.get("timeout")
-                if r.get("parse1") != "ok" and not crashed:
+                clean = r.clean
+                if not clean and not r.rejected:
+                    if "harness_error" in r:
+                        self.inconclusive["harness-error"] = self.inconclusive.get("harness-error", 0) + 1
+                        acc.append(False)
+                        continue
+                    if r.get("timeout") and len(src) > 3000:
+                        self.inconclusive["timeout-large-input"] = self.inconclusive.get("timeout-large-input", 0) + 1
+                        acc.append(False)
+                        continue
+                if r.rejected:
                     self.count("rejected:" + kind)
                     if tags:
                         for t in tags:
                             self.tag_bad[t] = self.tag_bad.get(t, 0) + 1
-                    acc.append(False)
-                    continue
-                if r.get("timeout") and len(src) > 3000:
-                    self.inconclusive["timeout-large-input"] = self.inconclusive.get("timeout-large-input", 0) + 1
                     acc.append(False)
                     continue
                 acc.append(True)
@@ -112,7 +113,9 @@ class Run:
                         self.tag_ok[t] = self.tag_ok.get(t, 0) + 1
                 if len(self.samples) < 8 and self.accepted % 977 == 1:
                     self.samples.append({"origin": origin, "source": src[:300], "comments": r.get("comments"), "ast_lines": r.get("defs_lines")})
-                fails, norm = judge.judge(r, src)
+                if clean:
+                    continue
+                fails, norm = judge.judge(r.data(), src)
                 for k, v in norm.items():
                     self.norm[k] = self.norm.get(k, 0) + 1
                 if fails:
@@ -281,9 +284,9 @@ def triage_failures(R):
             piece_res[i] = r
     by_input = {}
     for (idx, psrc), r in zip(pieces_req, piece_res):
-        if r.get("parse1") != "ok" and "panic" not in r:
+        if r.clean or r.rejected:
             continue
-        f, _ = judge.judge(r, psrc)
+        f, _ = judge.judge(r.data(), psrc)
         for k, sig, det in f:
             by_input.setdefault(idx, []).append((psrc, (k, sig), det))
     for idx, (src, origin, fails) in enumerate(R.failing):
